@@ -17,7 +17,7 @@ pub const FIELD_IDENTS: [&str; 12] = ["a", "id", "user_id", "user_id2", "x1_y", 
 pub const VARIANT_IDENTS: [&str; 9] = ["A", "Done", "InProgress", "HTTPServer", "V2Beta", "Io", "X86_64", "Utf_8", "RISC_V"];
 
 /// attribute sets for a designated struct field: (label, attribute lines, hidden by plain skip?)
-pub const FIELD_ATTRS: [(&str, &[&str], bool); 20] = [
+pub const FIELD_ATTRS: [(&str, &[&str], bool); 25] = [
     ("none", &[], false),
     ("rename-kebab", &["#[serde(rename = \"x-y\")]"], false),
     ("rename-Z", &["#[serde(rename = \"Z\")]"], false),
@@ -38,9 +38,16 @@ pub const FIELD_ATTRS: [(&str, &[&str], bool); 20] = [
     ("rename-split-reversed", &["#[serde(rename(deserialize = \"de_name\", serialize = \"ser-name\"))]"], false),
     ("rename-serialize-only", &["#[serde(rename(serialize = \"only_ser\"))]"], false),
     ("rename-non-bmp", &["#[serde(rename = \"tag-🏷-𠮷\")]"], false),
+    // wire names that differ from a sibling's only in letter case (and equal it under no convention)
+    ("rename-iD", &["#[serde(rename = \"iD\")]"], false),
+    ("rename-USER_id", &["#[serde(rename = \"USER_id\")]"], false),
+    // wire names that read as numeric literals when left unquoted
+    ("rename-hex", &["#[serde(rename = \"0x10\")]"], false),
+    ("rename-exp", &["#[serde(rename = \"1e3\")]"], false),
+    ("rename-sep", &["#[serde(rename = \"1_000\")]"], false),
 ];
 
-pub const VARIANT_ATTRS: [(&str, &[&str]); 10] = [
+pub const VARIANT_ATTRS: [(&str, &[&str]); 12] = [
     ("none", &[]),
     ("rename-kebab", &["#[serde(rename = \"x-y\")]"]),
     ("rename-Z", &["#[serde(rename = \"Z\")]"]),
@@ -51,6 +58,8 @@ pub const VARIANT_ATTRS: [(&str, &[&str]); 10] = [
     ("rename-split-reversed", &["#[serde(rename(deserialize = \"de_name\", serialize = \"ser-name\"))]"]),
     ("rename-non-bmp", &["#[serde(rename = \"party-🎉-𝟭\")]"]),
     ("rename-non-ascii", &["#[serde(rename = \"fröhlich “q” \\u{2028}\")]"]),
+    ("rename-hTTPserver", &["#[serde(rename = \"hTTPserver\")]"]),
+    ("rename-dONE", &["#[serde(rename = \"dONE\")]"]),
 ];
 
 #[derive(Debug, Clone)]
